@@ -7,7 +7,7 @@ META = {
     "technique": "Lean 4 LTS models of the Writer close/enter/leave/spawn protocol and of Reader/ConsumerGroup Close with a termination measure (every internal event decreases it, a waiting Close always has an enabled event) and invariants (ErrClosedPipe/EOF after close, nothing sent after CloseReturn, live goroutine / open connection sets empty); tie = real Writer/Reader/ConsumerGroup/Transport run against fakes that decide when every network call returns (steered D1 window, rebalance/slow/silent brokers, random schedules); the observed external event trace is accepted by state-set simulation of the LTS in a compiled Lean oracle and judged by a trace monitor; goroutine and connection census",
     "level_claimed": {
         "category": "proof",
-        "text": "Kernel-checked: for all event sequences of the models, every internal event after the closed mark decreases a measure and a waiting Close is never blocked (termination in finitely many steps given each network call returns), calls arriving after Close get io.ErrClosedPipe / io.EOF, cancelled blocked calls can return the context error, at CloseReturn every accepted message had its Completion and no goroutine/connection of the model is live; D1 documented by a decide-checked stuck state of the unrepaired step relation. Wall-clock bounds are observed by watchdogs only (partial).",
+        "text": "Kernel-checked: for all event sequences of the models, every internal event after the closed mark decreases a measure and a waiting Close is never blocked (close_terminates, full, via the message-tracking invariant; group_run_terminates on the GroupRun model; termination in finitely many steps given each network call returns), calls arriving after Close get io.ErrClosedPipe / io.EOF, cancelled blocked calls can return the context error, at CloseReturn every accepted message had its Completion and no goroutine/connection of the model is live; D1 documented by a decide-checked stuck state of the unrepaired step relation. Wall-clock bounds are observed by watchdogs only (partial).",
         "design_ref": "DESIGN.md §7 C08,C07,C01,C09(Writer) and C09 — Reader / ConsumerGroup / Transport part",
     },
     "level_note": "Trusted: Lean kernel; propext/Classical.choice/Quot.sound; the hand-written LTS models (no regenerated tie for C09: the models follow writer.go/reader.go/consumergroup.go by hand and are tied by trace acceptance of externally observed events only — internal events are existentially quantified by the oracle's state-set simulation, so an implementation whose internal order differs but whose observable behaviour is allowed is accepted); the Go runtime (WaitGroup, channels, timers) is modelled; the fakes (message-level RoundTripper, byte-level broker over net.Pipe); goroutine census by stack inspection. 'Bounded time' is a watchdog observation, not a theorem.",
@@ -59,7 +59,7 @@ def run(ctx):
     ctx.coverage["rule"] = ("Writer: 8 steered schedule families (Close while a call sits in its metadata lookup = D1 window, with/without earlier traffic, "
                             "cancel inside lookup / while waiting for a batch, use after close; sync+async) x repetitions, plus random scripts of begin/hold/release/cancel/"
                             "close/probe/pause over BatchSize 1..3, MaxAttempts 1..3, BatchTimeout 1-3ms or 1h, produce outcomes ok/temporary/permanent. "
-                            "Reader/ConsumerGroup/Transport: scenario families listed in docs/notes/C09.md. distinct = distinct observed traces")
+                            "Reader/ConsumerGroup/Transport: scenario families listed in docs/notes/C09.md; grun = ConsumerGroup.Close hook traces replayed deterministically through Model/GroupRun. distinct = distinct observed traces")
     concrete = [d for d in dis if d.get("kind") == "disagreement" and not d["holds_on_impl"]]
     others = [d for d in dis if d not in concrete]
     recorded = 0
